@@ -51,9 +51,12 @@ def check_scenario(sc):
         root = os.path.join(d, 'out')
         rec = fsrec.Recorder(root)
         st = scenario_state(shape, nested)
+        kw = {}
+        if sc.get('counters'):
+            kw['counters'] = {'no-hash': {'resource-hash': None}, 'no-bytes': {'resource-bytes': None, 'datapackage-bytes': None}}[sc['counters']]
         with rec.active():
             core.Flow(core.from_state(st),
-                      core.dataflows.dump_to_path(root, format=fmt, add_filehash_to_path=filehash)).process()
+                      core.dataflows.dump_to_path(root, format=fmt, add_filehash_to_path=filehash, **kw)).process()
         states = rec.crash_states()
         seen = set()
         for label, cs in states:
@@ -96,7 +99,7 @@ def check_scenario(sc):
                                     dict(sc, label=label)))
         for k in range(nops):
             after_failure('OSError at fs op #%d' % k, lambda root2: core.Flow(
-                core.from_state(scenario_state(shape, nested)), core.dataflows.dump_to_path(root2, format=fmt, add_filehash_to_path=filehash)), fail_at=k)
+                core.from_state(scenario_state(shape, nested)), core.dataflows.dump_to_path(root2, format=fmt, add_filehash_to_path=filehash, **kw)), fail_at=k)
         total = sum(shape)
         for j in range(total):
             def mk(root2, j=j):
@@ -107,7 +110,7 @@ def check_scenario(sc):
                     if cnt[0] == j + 1:
                         raise RuntimeError('source fails at row %d' % j)
                 return core.Flow(core.from_state(scenario_state(shape, nested), on_pull=boom),
-                                 core.dataflows.dump_to_path(root2, format=fmt, add_filehash_to_path=filehash))
+                                 core.dataflows.dump_to_path(root2, format=fmt, add_filehash_to_path=filehash, **kw))
             after_failure('source raising at row %d of %d' % (j, total), mk)
         final_what, final_outcome = check_state(rec.points[-1][1])
         if final_outcome != 'descriptor-complete' and not seen:
@@ -129,6 +132,11 @@ def scenarios(tier):
                 for fh in (False, True):
                     for nested in ((False, True) if tier == 'thorough' or nres == 2 else (False,)):
                         out.append({'shape': list(sh), 'format': fmt, 'filehash': fh, 'nested': nested})
+    # documented counter options change which of size / hash the descriptor records
+    for fmt in ('csv', 'json'):
+        for counters in ('no-hash', 'no-bytes'):
+            for sh in ([1], [3, 0], [1, 3, 1]):
+                out.append({'shape': sh, 'format': fmt, 'filehash': False, 'nested': False, 'counters': counters})
     if tier == 'thorough':
         for fmt in ('csv', 'json'):
             out.append({'shape': [40, 0, 25], 'format': fmt, 'filehash': False, 'nested': True})
@@ -151,5 +159,5 @@ def run(run):
 
 
 def replay(w):
-    sc = {k: w[k] for k in ('shape', 'format', 'filehash', 'nested')}
+    sc = {k: w[k] for k in ('shape', 'format', 'filehash', 'nested', 'counters') if k in w}
     return check_scenario(sc)['viol']
